@@ -301,8 +301,12 @@ class GooFitChain(AmplitudeChain):
         if self.ls_enum == LS.kMatrix:
             _, poleprod, pterm = self.lineshape.split(".")
             is_pole = "true" if poleprod == "pole" else "false"
+            # the parameters are declared under their programmatic names (see make_pars)
+            kpars = ", ".join(
+                _programmatic_name(p) for p in ("sA_0", "sA", "s0_prod", "s0_scatt")
+            )
             return f"""new Lineshapes::kMatrix("{name}", {pterm}, {is_pole},
-            sA_0, sA, s0_prod, s0_scatt,
+            {kpars},
             f_scatt, IS_poles,
             {par}_M, {par}_W, {L}, {masses}, FF::BL2, {radius})"""
 
@@ -640,8 +644,12 @@ class GooFitPyChain(AmplitudeChain):
         if self.ls_enum == LS.kMatrix:
             _, poleprod, pterm = self.lineshape.split(".")
             is_pole = "True" if poleprod == "pole" else "False"
+            # the parameters are declared under their programmatic names (see make_pars)
+            kpars = ", ".join(
+                _programmatic_name(p) for p in ("sA_0", "sA", "s0_prod", "s0_scatt")
+            )
             return f"""Lineshapes.kMatrix("{name}", {pterm}, {is_pole},
-            sA_0, sA, s0_prod, s0_scatt,
+            {kpars},
             f_scatt, IS_poles,
             {par}_M, {par}_W, {L}, {masses}, FF.BL2, {radius})"""
 
